@@ -178,9 +178,10 @@ BkAnswer(n, a) ==
      /\ bq' = [bq EXCEPT ![n] = rest[1]]
      /\ b2p' = [b2p EXCEPT ![n] = Append(@, [fid |-> f, kind |-> kind, cls |-> cls, to |-> to, vals |-> vals, num |-> num]) \o rest[2]]
      /\ hops' = IF kind \in {"moved", "ask"} THEN (f :> (h + 1)) @@ hops ELSE hops
-     /\ mon' = MonApply(mon, [Ev0 EXCEPT !.ev = "answer", !.c = f[1], !.i = f[2], !.n = n, !.conn = Conn(n),
-                                          !.fid = "f", !.kind = kind, !.cls = cls, !.to = to, !.num = num,
-                                          !.toks = FragToks(req, f, n, vals)])
+     /\ mon' = Fold(mon, <<[Ev0 EXCEPT !.ev = "answer", !.c = f[1], !.i = f[2], !.n = n, !.conn = Conn(n),
+                                        !.fid = "f", !.kind = kind, !.cls = cls, !.to = to, !.num = num,
+                                        !.toks = FragToks(req, f, n, vals)]>>
+                          \o [x \in DOMAIN rest[2] |-> [Ev0 EXCEPT !.ev = "answerauto", !.n = n, !.conn = Conn(n)]])
      /\ sched' = Append(sched, [op |-> "answer", c |-> "", n |-> n, req |-> [k |-> "", slots |-> <<>>], kind |-> kind, cls |-> cls, to |-> to])
   /\ UNCHANGED <<nsent, cbuf, cclosed, copen, closing, inq, msg, frag, outfq, infq, sopen, sgen, tasks, ttree,
                  expired, bclosed, nclose, phase, ready, woke, seen, halted, out>>
@@ -472,7 +473,9 @@ RunAll(h) ==
             IN RunAll([h0 EXCEPT !.infq[n] = @ \o moved, !.outfq[n] = <<>>, !.ttree = @ \o timed,
                                  !.bq[n] = IF arrives THEN au[1] ELSE @,
                                  !.b2p[n] = IF arrives THEN @ \o au[2] ELSE @,
-                                 !.evs = IF arrives THEN @ \o recvs ELSE @])
+                                 !.evs = IF arrives THEN @ \o recvs \o [x \in DOMAIN au[2] |->
+                                                  [Ev0 EXCEPT !.ev = "answerauto", !.n = n, !.conn = <<n, h0.sgen[n]>>]]
+                                         ELSE @])
           ELSE RunAll(h0)
 
 RunTasks ==
